@@ -530,15 +530,47 @@ def run(ctx):
         ctx.record({"steps": [[s["op"], s["arg"]] for s in ev["steps"]]}, v, op="life-cycle", conformance=True, nontrivial=True,
                    sample={"calls": [[s["op"], s["arg"], s["out"]] for s in ev["steps"]]})
     ctx.traces_validated += len(levents)
+    # cluster-coordinated use on a REAL in-process dask.distributed cluster (real Variable / Lock, the scheduler's own interleavings)
+    cevents = _real_cluster_rounds(ctx, 40 if q else 400)
+    cverdicts = _validate(ctx, cevents)
+    for k, (ev, v) in enumerate(zip(cevents, cverdicts)):
+        ctx.record({"round": k, "n": ev["n"], "seed": ctx.seed}, v, op="cluster:real-distributed", nontrivial=True,
+                   sample={"n": ev["n"], "calls": ev["calls"], "outcomes": ev["outcomes"]})
+    ctx.traces_validated += len(cevents)
     ctx.rule = ("schedules = every maximal interleaving of 2 writers + finaliser (local path all; distributed paths a seeded subset in the quick tier) and "
                 "simulated interleavings of 3 writers, each replayed on real threads through seams; non-trivial = at least two processes interleave within the "
                 "first 8 steps; plus schedules taken by the real threads under a seeded explorer (uniform / sticky / switchy) in 6 configurations, each checked to be a behaviour of the model; sink cases = part counts/sizes/orders/parts-dir placements and all subsets of limit keywords; distinct by schedule / case")
-    ctx.assumptions = ["fake boto3 client, fake distributed.Variable/Lock with the documented semantics (no cluster in the sandbox)",
+    ctx.assumptions = ["fake boto3 client; interleavings are explored with stand-ins for distributed.Variable/Lock (documented semantics) - a real in-process "
+                       "dask.distributed cluster (Client(processes=False), real Variable/Lock) runs the same protocol under the scheduler's own interleavings",
                        "seams: every access to MultiPartUpload.uploadId (property on a harness subclass), _dask_client, lock enter/exit, Variable get/set/delete, client calls"]
+
+
+def _real_cluster_rounds(ctx, rounds):
+    """harness/vh/realcluster.py in a process of its own (a dask.distributed client + in-process workers); the child imports odc.geo from the
+    same place as this process"""
+    import subprocess
+    import sys
+
+    env = dict(os.environ)
+    here = os.path.dirname(os.path.dirname(os.path.dirname(os.path.abspath(__file__))))
+    env["PYTHONPATH"] = os.pathsep.join([here] + [p for p in env.get("PYTHONPATH", "").split(os.pathsep) if p])
+    r = subprocess.run([sys.executable, "-m", "vh.realcluster", str(rounds), str(ctx.seed)], capture_output=True, text=True, env=env, timeout=900)
+    line = next((ln for ln in r.stdout.splitlines() if ln.startswith("EVENTS ")), None)
+    if line is None:
+        raise MachineryError(f"real cluster rounds produced no events (rc={r.returncode}): {r.stderr[-600:]}")
+    return json.loads(line[7:])
 
 
 def replay(ctx, obj):
     c = obj["case"]
+    if "round" in c:
+        evs = _real_cluster_rounds(ctx, c["round"] + 1)
+        ev = evs[c["round"]]
+        v = _validate(ctx, [ev])[0]
+        print(f"replay: calls={ev['calls']} outcomes={ev['outcomes']} verdict={v}")
+        ctx.record(c, v, op="cluster:real-distributed")
+        ctx.traces_validated = 1
+        return
     if c.get("explore"):
         ev = replay_schedule(dict(c, sched=[], final={}), explore=c["explore"])
         a = _validate(ctx, [ev])[0]
